@@ -19,6 +19,7 @@ FIXED = [
  ("C01","35984e1","C01:crash:font:lenIV=-1099511627776","a negative /lenIV made type1.Read panic (makeslice) or die with a fatal out-of-memory error (lenIV -2^40 asks for a terabyte)"),
  ("C01","4b5e453","panic: runtime error: slice bounds out of range @seehuhn.de/go/postscript/type1.","charstring `0 0 callothersubr` panicked in the charstring decoder (slice [:-1])"),
  ("C01","25ffaad","C01:crash:ps-operator:bind","`bind` on two 12-slot procedures that contain each other in every slot walked (n!)^2 paths: a hang inside one operation that no budget stops"),
+ ("C01","0bc1881","panic: runtime error: index out of range @seehuhn.de/go/postscript.defaultErrorHandlerFn","`errordict /typecheck get exec` ran the default error handler with no pending error: index out of range [-1] (found by an independent seeding agent; C01 now enumerates error-handler objects as operands)"),
  ("C03","fd1b9e3","C03:shapes:state:stack-depth:{exec,lit}","`{ {1 2} } exec` executed the inner procedure (procedure literal in tail position run instead of pushed)"),
  ("C03","9f20894","C03:shapes:unexpected-error:invalidexit:{repeat,exit}","`3 {exit} repeat` reported invalidexit; `stop` inside repeat only ended the loop (errStop/errExit swapped)"),
  ("C03","504480d","C03:dictstack:state:value:{dict}","`{/add} bind` replaced the literal name /add by the operator"),
